@@ -116,6 +116,7 @@ pub fn check_ops(ops: &[Op]) -> CaseResult {
     let (mut ha, mut hb, mut hc, mut hl) = (Handles::default(), Handles::default(), Handles::default(), Handles::default());
     mark("ops", "[");
     let mut any_partial = false;
+    let mut loose_link_kinds = false;
     for (i, op) in ops.iter().enumerate() {
         mark_append(&format!("{},", serde_json::to_string(op).unwrap()));
         let a = apply_h(&direct, op, &mut ha);
@@ -159,6 +160,26 @@ pub fn check_ops(ops: &[Op]) -> CaseResult {
         if !any_partial && tree_from_dump(&late.verif_dump()) != ta {
             any_partial = true;
         }
+        // a copy creates the links of the source in the (per-instance) order its traversal meets them; whether a
+        // copied link is typed as a directory link depends on whether its target had been copied already. That
+        // flag is not comparable across instances after such a copy: from then on trees are compared without it
+        let strip = |t: &Tree| -> Tree {
+            let mut t = t.clone();
+            for n in t.nodes.values_mut() {
+                if let Node::Link { to_dir, .. } = n {
+                    *to_dir = false;
+                }
+            }
+            t
+        };
+        if (ta != tb || ta != tc) && !loose_link_kinds && matches!(op.name(), "copy" | "copy_b") && strip(&ta) == strip(&tb) && strip(&ta) == strip(&tc) {
+            // later answers (is_symlink_dir, entry kinds, set_cwd on such a link ...) inherit the difference:
+            // the history ends here, counted as excluded
+            loose_link_kinds = true;
+            ctx().exclude(1);
+            return Ok(());
+        }
+        let (ta, tb, tc) = if loose_link_kinds { (strip(&ta), strip(&tb), strip(&tc)) } else { (ta, tb, tc) };
         if (ta != tb || ta != tc) && partial {
             // a failing multi-entry call stops wherever the (per-instance, unordered) traversal was:
             // the partial effect is not comparable across instances; the history ends here
